@@ -282,6 +282,7 @@ func CheckMain(args []string) int {
 	opts := SolveOpts{QuickMs: 4000, RaceMs: 12000, OutDir: outDir, Seed: seed}
 	if tier == "thorough" {
 		opts.QuickMs, opts.RaceMs = 10000, 60000
+		opts.Stability = true
 	}
 	stats := &SolverStats{}
 	var keys []string
@@ -403,6 +404,12 @@ func CheckMain(args []string) int {
 	if len(vacuous) > 0 {
 		exit = 2
 	}
+	if len(stats.Disagree) > 0 {
+		for _, d := range stats.Disagree {
+			fmt.Printf("ENGINE-ERROR: solvers disagree on %s\n", d)
+		}
+		exit = 2
+	}
 	if after := gitStatus(repo); after != statusBefore {
 		fmt.Println("ENGINE-ERROR: the check modified /repo")
 		exit = 2
@@ -433,6 +440,8 @@ func CheckMain(args []string) int {
 			"functions":                fnNames,
 			"samples":                  samples,
 			"fragile":                  fragile,
+			"cross_solver_answers":     stats.Cross,
+			"seed_fragile":             stats.SeedFragile,
 			"outside_subset":           unsupported,
 			"vacuity_guards":           fmt.Sprintf("%d units: assumptions satisfiable and a return reachable (unsat would be ENGINE-ERROR)", funcs),
 			"not_decided":              notDecided(prop),
